@@ -55,6 +55,10 @@ PROFILES = {
     "clean": dict(loss=0.0, dup=0.0, reorder=0.0, chan_params=[p_reliable], channels=3, close=False, fire=0.0),
     "mixed-pr": dict(loss=0.2, dup=0.03, reorder=0.3, chan_params=[p_reliable, p_rexmit, p_timed], channels=5, close=False,
                      sizes=[0, 1, 100, 1200, 1201, 5000, 20000]),
+    "hostile": dict(loss=0.05, dup=0.02, reorder=0.2, chan_params=[p_reliable, p_rexmit], channels=4, close=True,
+                    hostile=0.25, sizes=[0, 1, 100, 1200, 3000]),
+    "hostile-benign": dict(loss=0.05, dup=0.02, reorder=0.2, chan_params=[p_reliable, p_rexmit], channels=4, close=False,
+                           hostile=0.25, forging=False, sizes=[0, 1, 100, 1200, 3000]),
     "lifecycle": dict(loss=0.1, dup=0.02, reorder=0.2, chan_params=[p_reliable, p_rexmit, p_negotiated, p_explicit_id],
                       channels=6, close=True, sizes=[0, 1, 10, 1200, 3000]),
 }
@@ -155,6 +159,10 @@ class Run:
             feats.add("loss")
         if any(o[0] == "dup" for o in case["ops"]):
             feats.add("dup")
+        if any(o[0] == "unstash" for o in case["ops"]):
+            feats.add("late-dup")
+        if any(o[0] == "inject" for o in case["ops"]):
+            feats.add("hostile")
         self.features = sorted(feats)
 
 
